@@ -60,7 +60,7 @@ type c15Call struct {
 }
 
 func runC15(r *vc.Run, replay string) {
-	r.Rule = "cases = phase-two requests: streams of 60-500 BranchCommit/BranchRollback requests mixing a scripted branch type (statuses 0..10, with/without error, held, panicking) with AT/TCC/XA requests for unknown resources and an unregistered branch type, delivered concurrently on one session, with holds that invert completion order; one batch per scripted branch type (SAGA slot, AT, TCC, XA overridden), each followed by 12 requests whose message ids equal the ids of client requests still waiting for their answers; oracle = per message id: number of responses, response type, xid, branch id, status vs. what the manager returned, routing (recorded manager calls), independence from held requests; distinct_nontrivial = distinct (branch type, kind, manager outcome, response count) signatures of requests that were delivered"
+	r.Rule = "cases = phase-two requests: streams of 60-500 BranchCommit/BranchRollback requests mixing a scripted branch type (statuses 0..10, with/without error, held, panicking) with AT/TCC/XA requests for unknown resources and an unregistered branch type, delivered concurrently on one session, with holds that invert completion order; one batch per scripted branch type (SAGA slot, AT, TCC, XA overridden), each followed by 12 requests whose message ids equal the ids of client requests still waiting for their answers; a stream of requests that alternate between two managers of different branch types which know the same resource id; oracle = per message id: number of responses, response type, xid, branch id, status vs. what the manager returned, routing (recorded manager calls), independence from held requests; distinct_nontrivial = distinct (branch type, kind, manager outcome, response count) signatures of requests that were delivered"
 	r.Assumptions = []string{"the scripted manager is registered through the public rm.GetRmCacheInstance().RegisterResourceManager API and overrides the real manager of its branch type in that child",
 		"a request whose manager fails may stay unanswered (the coordinator retries); only a success status is forbidden then"}
 	types := []int{2, 0, 1, 3}
@@ -72,7 +72,153 @@ func runC15(r *vc.Run, replay string) {
 			c15Batch(r, t)
 		}(t)
 	}
+	wg.Add(1)
+	go func() { defer wg.Done(); c15Shared(r) }()
 	wg.Wait()
+}
+
+// c15Shared: two managers of different branch types that both know the same resource id (one database opened through
+// the AT and the XA driver has one resource id for both). Requests for that resource alternate between the two
+// types; each must reach the manager of its own type and be answered with that manager's status.
+func c15Shared(r *vc.Run) {
+	w, err := world.New(r)
+	if err != nil {
+		r.Errorf("world: %v", err)
+		return
+	}
+	defer w.Close()
+	ch, err := w.StartClient("c15-shared", true, world.InitArg{}, []string{"GORACE=halt_on_error=0"})
+	if err != nil {
+		r.Errorf("%v", err)
+		return
+	}
+	defer ch.Kill()
+	types := []int{0, 3} // AT and XA slots, both overridden by scripted managers
+	const res = "jdbc:shared-resource"
+	n := 24
+	if r.Tier == "thorough" {
+		n = 120
+	}
+	type req struct {
+		typ    int
+		branch int64
+		commit bool
+		status int
+		id     uint32
+		ch     chan *wire.Msg
+		xid    string
+	}
+	var reqs []*req
+	entries := map[int][]map[string]interface{}{}
+	for i := 0; i < n; i++ {
+		t := types[(i/2+i)%2] // A B B A A B B A ...: both "first seen" orders and changes of type occur
+		q := &req{typ: t, branch: int64(8800000 + i), commit: i%3 != 0, xid: fmt.Sprintf("10.9.9.9:8091:%d", 600+i/4)}
+		q.status = 8
+		if q.commit {
+			q.status = 5
+		}
+		if t == 3 {
+			// the second manager answers with the retryable-failure statuses, so that a reply shows whose it is
+			q.status = 9
+			if q.commit {
+				q.status = 6
+			}
+		}
+		entries[t] = append(entries[t], map[string]interface{}{"branch_id": q.branch, "status": q.status})
+		reqs = append(reqs, q)
+	}
+	for _, t := range types {
+		if err := ch.Call("rm_script", map[string]interface{}{"branch_type": t, "entries": entries[t], "resources": []string{res}}, nil); err != nil {
+			r.Errorf("rm_script: %v", err)
+			return
+		}
+	}
+	s := w.TC.WaitSession("", 10*time.Second)
+	if s == nil {
+		r.Errorf("no session")
+		return
+	}
+	start := w.Clock.Now()
+	for _, q := range reqs {
+		mt := int16(wire.TBranchRollback)
+		if q.commit {
+			mt = wire.TBranchCommit
+		}
+		m := wire.New(mt, "xid", q.xid, "branchId", q.branch, "branchType", q.typ, "resourceId", res, "applicationData", "")
+		id, c, err := w.TC.Request(s, m, 0)
+		if err != nil {
+			continue
+		}
+		q.id, q.ch = id, c
+		select { // sequential: the order in which the types are first seen is part of the case
+		case rm := <-c:
+			if rm != nil {
+				c <- rm
+			}
+		case <-time.After(10 * time.Second):
+		}
+	}
+	calls := map[int][]c15Call{}
+	for _, t := range types {
+		var cs []c15Call
+		if err := ch.Call("rm_calls", map[string]interface{}{"branch_type": t}, &cs); err != nil {
+			r.Inconc("rm_calls: " + err.Error())
+			return
+		}
+		for _, c := range cs {
+			if c.Seq > start {
+				calls[t] = append(calls[t], c)
+			}
+		}
+	}
+	resp := map[uint32][]*faketc.Event{}
+	for _, e := range w.TC.EventsSince(start) {
+		if e.Dir == "in" && e.FType == wire.FrameResponse {
+			resp[e.ID] = append(resp[e.ID], e)
+		}
+	}
+	for i, q := range reqs {
+		kind := map[bool]string{true: "commit", false: "rollback"}[q.commit]
+		prev := "first"
+		if i > 0 {
+			prev = map[bool]string{true: "same-type-before", false: "other-type-before"}[reqs[i-1].typ == q.typ]
+		}
+		shape := fmt.Sprintf("shared-resource|type=%s|%s|%s", c15TypeName[q.typ], kind, prev)
+		feat := map[string]string{"stream": "shared-resource", "type": c15TypeName[q.typ], "kind": kind}
+		if q.ch == nil {
+			r.Case("", nil)
+			continue
+		}
+		var own, other []c15Call
+		for _, t := range types {
+			for _, c := range calls[t] {
+				if c.BranchID == q.branch {
+					if t == q.typ {
+						own = append(own, c)
+					} else {
+						other = append(other, c)
+					}
+				}
+			}
+		}
+		rs := resp[q.id]
+		r.Case(shape, map[string]interface{}{"branch": q.branch, "responses": len(rs), "own_manager_calls": len(own), "other_manager_calls": len(other)})
+		viol := func(clause, detail string) {
+			r.Violate(&vc.Violation{Clause: clause, Shape: shape, Features: feat, Detail: detail, Case: map[string]interface{}{"request_index": i, "branch": q.branch, "type": q.typ, "resource": res},
+				History: map[string]interface{}{"own_manager_calls": own, "other_manager_calls": other}})
+		}
+		if len(other) > 0 || len(own) != 1 {
+			viol("misrouted", fmt.Sprintf("a %s request of branch type %s for a resource id that the %s manager knows too reached its own manager %d times and the other one %d times", kind, c15TypeName[q.typ], c15TypeName[types[0]+types[1]-q.typ], len(own), len(other)))
+			continue
+		}
+		if len(rs) != 1 {
+			viol("missing-response", fmt.Sprintf("%d responses for message id %d", len(rs), q.id))
+			continue
+		}
+		if got := rs[0].Msg; got == nil || got.I("branchStatus") != int64(q.status) || got.I("branchId") != q.branch || got.S("xid") != q.xid {
+			viol("wrong-status", fmt.Sprintf("the response is %s, the manager of type %s returned status %d for this branch", rs[0].Text, c15TypeName[q.typ], q.status))
+		}
+	}
 }
 
 var c15TypeName = map[int]string{0: "AT", 1: "TCC", 2: "SAGA", 3: "XA", 9: "unregistered"}
